@@ -52,28 +52,9 @@ pub fn strategy() -> BoxedStrategy<Case> {
             // the hidden claims have pairwise distinct (name or none, value) pairs — only then
             if salts.len() >= 2 && ch.get(3).map(|c| c % 4 == 0).unwrap_or(false) {
                 if let Ok(t) = mark(&issue.claims, &issue.strat) {
-                    let mut pairs: Vec<String> = t
-                        .hidden_paths()
-                        .iter()
-                        .map(|p| {
-                            let mut v = &issue.claims;
-                            for seg in p {
-                                v = match seg {
-                                    sdjwt_model::tree::Seg::K(k) => &v[k.as_str()],
-                                    sdjwt_model::tree::Seg::I(i) => &v[*i],
-                                };
-                            }
-                            let name = match p.last() {
-                                Some(sdjwt_model::tree::Seg::K(k)) => serde_json::to_string(k).unwrap(),
-                                _ => "-".to_string(),
-                            };
-                            format!("{} {}", name, sdjwt_model::exact::to_exact(v))
-                        })
-                        .collect();
-                    let total = pairs.len();
-                    pairs.sort();
-                    pairs.dedup();
-                    if pairs.len() == total {
+                    // (one time in four also when they are not distinct: then only the consumption
+                    // clauses are asserted, see the oracle)
+                    if sdjwt_model::oracle::c16::hidden_pairs_distinct(&issue.claims, &t) || ch.get(7).map(|c| c % 4 == 0).unwrap_or(false) {
                         if ch.get(4).map(|c| c % 2 == 0).unwrap_or(false) {
                             let s0 = salts[0].clone();
                             for s in salts.iter_mut() {
